@@ -256,6 +256,27 @@ def run(ctx: core.Check):
         if len(tr.events) > 3000:
             toolrun.report(ctx, tr, label="roundtrip-random", keyfn=keyfn)
             tr = toolrun.Trace()
+    # the SAME dependency name in sibling branches holding DIFFERENT envelopes (root -> #a -> #common, root -> #b -> #common), and
+    # the same name again at another depth: a dependency is identified by where it sits, not by what it is called
+    for k in range(6 if ctx.quick else 120):
+        def leaf(j):
+            x = envgen.random_shape(ctx.rng, maxdepth=0, small=True)
+            x.update({"deps": [], "pad": None, "seq": 11 * (j + 1) + k})
+            return x
+        forms = ["path", "inline", "alias"]
+        root, a_, b_ = leaf(0), leaf(1), leaf(2)
+        a_["deps"] = [["#common", leaf(3), forms[k % 3], envgen.ALGS[k % 5]]]
+        b_["deps"] = [["#common", leaf(4), forms[(k + 1) % 3], envgen.ALGS[(k + 1) % 5]]]
+        root["deps"] = [["#a", a_, forms[(k + 2) % 3], envgen.ALGS[(k + 2) % 5]], ["#b", b_, forms[k % 3], envgen.ALGS[(k + 3) % 5]]]
+        if k % 2:
+            root["deps"].append(["#common", leaf(5), "path", envgen.ALGS[0]])
+        b = envgen.Builder(d / f"sib{k}")
+        data = refusable(ctx, lambda: toolrun.create_lib(b.desc(root, toolrun.create_lib)))
+        if data is None:
+            continue
+        tr.begin({"origin": "siblings", "shape": root, "env": data})
+        n += 3 - n % 3  # all four format/hierarchy combinations
+        roundtrip_events(ctx, tr, keys, d, data, "siblings", n, "cli" if k % 3 == 0 else "lib")
     # descriptions over the whole grammar of the language (the C02 generator): every command, parameter, nesting, 0..4
     # authentication blocks, nested recipients - the round trip must hold for everything in the image of create
     from . import wiregen
